@@ -304,7 +304,7 @@ signal_base::insert(iterator_type i, slot_base&& slot_)
 signal_base&
 signal_base::operator=(const signal_base& src)
 {
-  if (src.impl_ == impl_)
+  if (&src == this)
     return *this;
 
   impl_ = src.impl();
